@@ -9,10 +9,12 @@ TRUSTED = ["ConstPool::Tree::get/insert/new_node_t and Arena::alloc_oneshot<Gap>
 
 def add_unit(size, tiers):
     return Unit(name="c19.add.%s" % ("size%d" % size if size else "invalid"), props=["C19", "C15", "C14"], tu=CP, roots=["asmjit::ConstPool::add"], stops=STOPS,
-                target="ConstPool_add", contracts="contracts/c19_constpool.h", harness="harness/c19_add.c", replay="replay/c19_add.cpp", dfcc=False, unwind=34, unwindset=["ConstPool_addGap.0:7"], object_bits=8, mem_gb=20, quick_defines=["NPER=1"],
+                target="ConstPool_add", contracts="contracts/c19_constpool.h", harness="harness/c19_add.c", replay="replay/c19_add.cpp", dfcc=False, unwind=34,
+                unwindset=(["ConstPool_addGap.0:7"] if size else ["ConstPool_addGap.0:1", "ConstPool_add.0:1", "ConstPool_add.1:1", "ConstPool_add.2:1"]), object_bits=8, mem_gb=20, quick_defines=["NPER=1"],
                 defines=(["VERIF_CONSTSIZE=%d" % size] if size else []), tiers=tiers, timeout=1500, kind="bounded",
                 bound_note="pre-state: 0..2 registered gaps per size class (offsets symbolic, disjoint), 0..1 spare gap record, pool size <= 2^30; "
-                           + ("constant size %d, contents symbolic" % size if size else "every size that is not a power of two <= 64"),
+                           + ("constant size %d, contents symbolic" % size if size else "every size that is not a power of two <= 64 (the loops of add() are unreachable "
+                                                                                         "for these: unwinding assertions at bound 1 prove it)"),
                 trusted=TRUSTED)
 
 
